@@ -380,4 +380,26 @@ def rule_own_magnitudes_shared(ck):
     c11.rule_own_magnitudes(ck)
 
 
-RULES = [rule_masked, rule_indicator, rule_binary_formula, rule_brier_formula, rule_isomorphism, rule_public, rule_cell_maps, rule_own_magnitudes_shared]
+def rule_precision(ck):
+    """C16-D3.double: numbers stay in the precision they were supplied in - no conversion of rates / counts / statistics to a narrower type
+    (shared reading with C05-D5.double)"""
+    from .common import rule_double_precision
+    ck.clause('D3')
+    rule_double_precision(ck, 'C16-D3.double', modules=('csep.core.binomial_evaluations', 'csep.core.brier_evaluations', 'csep.core.forecasts'), what='rates and scores')
+
+
+def rule_inputs_shared(ck):
+    """what the scores are computed from: the observation gridded without a sentinel reaching an index (shared C03-D1/D2/D5: an event
+    below the lowest magnitude edge must not activate the last bin) and the rates read through the scaled view, fresh at every
+    access (shared C11-D1/D4: after scale() the scores are those of the new rates)"""
+    from . import c03, c11
+    ck.clause('D2 (shared C03-D1/D2: the gridded observation)')
+    c03.rule_mag_sentinel(ck)
+    c03.rule_accumulation(ck)
+    c03.rule_spatial_rejection(ck)
+    ck.clause('D3 (shared C11-D1/D4: the rates that are scored)')
+    c11.rule_scaling(ck)
+    c11.rule_axes(ck)
+
+
+RULES = [rule_masked, rule_indicator, rule_binary_formula, rule_brier_formula, rule_isomorphism, rule_public, rule_cell_maps, rule_own_magnitudes_shared, rule_precision, rule_inputs_shared]
